@@ -5,14 +5,13 @@ F = "scylla/src/cluster/metadata/merge_channel.rs:"
 PROPERTY = {
     "title": "metadata updates handed between driver workers are neither lost nor duplicated",
     "level": "model_checking",
-    "level_text": "Bounded model checking of the real hand-off code at poll granularity: Kani/CBMC explores EVERY schedule of up to 3 (quick) / 5 and 7 (thorough) steps from {merge(x), drop sender, start+poll receive, poll receive again, cancel receive} over the real merge_channel (recv state machine, std Mutex, atomics as compiled; tokio's Notify replaced by a contract model under cfg(kani)) with a ghost slot and a wake counter and checks: each received value is exactly the set of updates merged since the previous receive (none lost, none duplicated, in order), a poll is Ready whenever a value is pending, a parked consumer is woken by merge and by sender drop, None only after the sender is gone and the slot is empty, whatever is pending at the end is obtainable by one more receive, and modify returns Err after the receiver is dropped.",
+    "level_text": "Bounded model checking of the real hand-off code at poll granularity: Kani/CBMC explores EVERY schedule of up to 3 (quick) / 5 (thorough) steps from {merge(x), drop sender, start+poll receive, poll receive again, cancel receive} over the real merge_channel (recv state machine, std Mutex, atomics as compiled; tokio's Notify replaced by a contract model under cfg(kani)) with a ghost slot and a wake counter and checks: each received value is exactly the set of updates merged since the previous receive (none lost, none duplicated, in order), a poll is Ready whenever a value is pending, a parked consumer is woken by merge and by sender drop, None only after the sender is gone and the slot is empty, whatever is pending at the end is obtainable by one more receive, and modify returns Err after the receiver is dropped.",
     "level_note": "Bounded stand-in (schedule length), sequential: true multi-threaded interleavings inside modify/recv (between mutex release and notify_one, Acquire/Release pairs) are NOT covered — Kani has no threads. The user-visible liveness sentences (refresh eventually answered) are not covered.",
     "technique": "bounded model checking of the real code under a symbolic step schedule with Kani (labelled bounded; contracts as assertions over a ghost slot)",
     "timeout": 1500,
     "kani": [
         Harness("c19_schedule_3", "C19.schedule.le3", "BOUNDED", "all schedules of <= 3 steps", bound="3 steps", functions=[F + "merge_channel", F + "Sender::modify", F + "Sender::drop", F + "Receiver::recv"]),
         Harness("c19_schedule_5", "C19.schedule.le5", "BOUNDED", "all schedules of <= 5 steps", bound="5 steps", tier="thorough", timeout=3000, functions=[F + "Receiver::recv", F + "Sender::modify"]),
-        Harness("c19_schedule_7", "C19.schedule.le7", "BOUNDED", "all schedules of <= 7 steps", bound="7 steps", tier="thorough", timeout=3000, functions=[F + "Receiver::recv", F + "Sender::modify"]),
         Harness("c19_scenario_park_merge_drop_poll_start", "C19.scenario.park_merge_drop_poll_start", "BOUNDED", "parked consumer; merge; sender dropped; poll => the update; next receive => end of stream (same assertions as the schedules)", bound="one concrete 5-step schedule", functions=[F + "Receiver::recv", F + "Sender::modify", F + "Sender::drop"]),
         Harness("c19_scenario_park_merge_merge_poll_start", "C19.scenario.park_merge_merge_poll_start", "BOUNDED", "parked consumer; two merges; poll => both at once; next receive parks (no spurious end of stream) (same assertions as the schedules)", bound="one concrete 5-step schedule", functions=[F + "Receiver::recv", F + "Sender::modify", F + "Sender::drop"]),
         Harness("c19_scenario_park_cancel_merge_start_start", "C19.scenario.park_cancel_merge_start_start", "BOUNDED", "park; cancel; merge; restart => the update; restart => parks (same assertions as the schedules)", bound="one concrete 5-step schedule", functions=[F + "Receiver::recv", F + "Sender::modify", F + "Sender::drop"]),
@@ -23,5 +22,5 @@ PROPERTY = {
     "verus": [],
     "trusted_base": ["Kani/CBMC soundness", "ASSUMED contract model of tokio::sync::Notify (kani/_base/scylla/src/cluster/metadata/merge_channel/verif_kani.rs: permit, single waiter, notification passed on when a notified future is dropped)", "std::sync::Mutex::lock stubbed by try_lock + checked non-contention; atomics executed with sequential semantics", "std::rt::thread_cleanup stub (ICE work-around)"],
     "assumptions": ["poll granularity: each step runs to completion before the next (no preemption inside modify/recv)"],
-    "not_covered": ["tokio::sync::Notify itself (contract assumed)", "multi-threaded interleavings inside modify/recv", "liveness of the metadata refresh path (worker.rs)"],
+    "not_covered": ["schedules longer than 5 steps (7 steps: CBMC out of memory / no answer)", "tokio::sync::Notify itself (contract assumed)", "multi-threaded interleavings inside modify/recv", "liveness of the metadata refresh path (worker.rs)"],
 }
